@@ -3,6 +3,8 @@ CONSTANTS
   MaxAdds = 3
   Ticks = {1000, 1004, 2000, 3000}
   MaxLen = 1
+  MaxLenI = 1
+  MaxSets = 1
   Tols = {1, 10}
   Kinds = {"float", "text"}
   Assocs = {"V", "C"}
